@@ -179,12 +179,19 @@ NA.update({
 })
 NOT_YET = "check not built in this session; not claimed"
 
+# thorough commands are registered only for properties whose thorough tier ran clean on the
+# unchanged tree (one id per line in tools/thorough_ok.txt)
+try:
+    THOROUGH_OK = set(open(os.path.join(V, "tools", "thorough_ok.txt")).read().split())
+except OSError:
+    THOROUGH_OK = set()
+
 checks = []
 for p in props:
     i = p["id"]
     if i in CLAIMS:
         text, ref = CLAIMS[i]
-        checks.append(dict(
+        entry = dict(
             property_id=i,
             quick_cmd="./check %s --tier quick" % i,
             thorough_cmd="./check %s --tier thorough" % i,
@@ -192,7 +199,10 @@ for p in props:
             replay_cmd_template="./check --replay {path}",
             engine="symgo",
             level_claimed=dict(category="model_checking", text=text, design_ref="DESIGN.md " + ref),
-            level_note=NOTE, technique=TECH))
+            level_note=NOTE, technique=TECH)
+        if i not in THOROUGH_OK:
+            del entry["thorough_cmd"]
+        checks.append(entry)
 na = []
 for p in props:
     i = p["id"]
